@@ -7,6 +7,7 @@ import Bptk.Core.PyWire
 operand:  N:<literal>   (a leading `-` = negative number)
           E:<name>:<0|1 named>:<keys>:<inner>      keys: comma list of i<nat> | s<name>, `-` = empty
   expandx <ex>                       nested operator tree assigned to a fresh converter (model `expandE tNow`)
+  expandxc <0|1> <ex>                the same under the probed mechanism `Cfg.reindexAll` (model `expandEC`)
   stockfresh <name> <ex>             … to a fresh (non-arrayed) stock: full stock function strings, time `t-model.dt`
   stockx <init literal> <S operand> <ex>     … to the ARRAYED stock S (Stock branch of `_handle_arrayed`)
   stockel <init literal> <S operand> <E operand>     arrayed stock := arrayed element
@@ -174,6 +175,13 @@ def handle (line : String) : String :=
   | "expandx" :: ws =>
     (match parseExAll ws with
      | some x => showResult (expandE tNow x)
+     | none => "bad-op")
+  | "expandxc" :: flag :: ws =>
+    (match parseExAll ws with
+     | some x =>
+       if flag == "1" then showResult (expandEC ⟨true⟩ tNow x)
+       else if flag == "0" then showResult (expandEC ⟨false⟩ tNow x)
+       else "bad-op"
      | none => "bad-op")
   | "stockfresh" :: nm :: ws =>
     (match parseExAll ws with
